@@ -366,6 +366,7 @@ func runCase(w *out.W, id string, sc *scenario, tags ...string) {
 			class := v.class
 			if class == "fk-before-table" && cyc && isRepoint(sc, v) {
 				// the FK is the To side of a ModifyForeignKey and the change set has a cycle
+				// (former finding C04-modfk-detached, repaired in dependsOn; kept as its own class)
 				class = "modfk-before-table-detached"
 			}
 			w.Violation(id, class, fmt.Sprintf("%s: %s; plan %s; case: %s", ep.name, v.msg, showOut(r.outp), line))
@@ -374,10 +375,7 @@ func runCase(w *out.W, id string, sc *scenario, tags ...string) {
 			// the hypotheses of the theorems on this case, and C04_safe_exact's prediction
 			if hyp {
 				w.Count("hyp:WF+consistent")
-				predicted := "ok"
-				if cyc && !scenarioOrdered(sc) {
-					predicted = "fail"
-				}
+				predicted := "ok" // theorem C04_safe
 				if predicted == verdict {
 					w.Count("exact:predicted-" + verdict)
 				} else {
@@ -569,7 +567,7 @@ func pow(b, e int) int {
 
 func genExhaustive(w *out.W, tier string) {
 	w.Exhaust = true
-	w.Rule = "exhaustive: every directed FK graph with self loops over n<=3 tables (2^(n*n)) x every split of the tables into created/dropped/kept-and-modified (3^n) x 4 readings of a modified table's edges (added / dropped / re-pointed by ModifyForeignKey, with or without another column change) x every input order of the change list (n!); identical change sets are run once; hyp:/exact: counters = on how many cases the hypotheses WF+consistent of the theorems hold and C04_safe_exact predicts the oracle's verdict. thorough adds every graph over 4 tables x 8 seeded (split, reading, order) choices. Each case runs sqlx.DetachCycles+SortChanges, mysql.DefaultPlan and postgres.DefaultPlan. Non-trivial = the planned order differs from the input order (something was moved or detached); distinct by case line"
+	w.Rule = "exhaustive: every directed FK graph with self loops over n<=3 tables (2^(n*n)) x every split of the tables into created/dropped/kept-and-modified (3^n) x 4 readings of a modified table's edges (added / dropped / re-pointed by ModifyForeignKey, with or without another column change) x every input order of the change list (n!); identical change sets are run once; hyp:/exact: counters = on how many cases the hypotheses WF+consistent of the theorems hold and the oracle's verdict is the one C04_safe proves (ok). thorough adds every graph over 4 tables x 8 seeded (split, reading, order) choices. Each case runs sqlx.DetachCycles+SortChanges, mysql.DefaultPlan and postgres.DefaultPlan. Non-trivial = the planned order differs from the input order (something was moved or detached); distinct by case line"
 	id := 0
 	for n := 1; n <= 3; n++ {
 		ps := perms(n)
